@@ -25,6 +25,13 @@
    _available_connections(); with two endpoints this exceeds `limit`.
    ReuseChecksLimit = TRUE is the ideal design in which that fast path is guarded.
 
+   RequeueHandoff = TRUE models the repaired code: a waiter that was woken but finds no
+   capacity for its key (it was taken meanwhile, e.g. by a waiter of the same key woken
+   just before) passes the wake-up on before it queues again.  FALSE is the code as found:
+   with limit_per_host, a release for key A could wake a second waiter of key B whose
+   capacity the first woken B-waiter then takes; the second goes back to sleep and A's
+   waiters are never woken although A has capacity (5 callers needed: KeyOf5 config).
+
    Traced = callers with a TraceConfig whose callbacks suspend.  TraceLeakFix /
    ReuseLeakFix = TRUE model the repaired code: a connection whose create_end /
    reuseconn trace callback is cancelled (or raises) is closed; FALSE is the code as
@@ -32,7 +39,7 @@
 EXTENDS Naturals, Sequences, FiniteSets, TLC
 
 CONSTANTS Tasks, Keys, KeyOf, L, Lh, Handoff, ReuseChecksLimit, MaxCancel, MaxFail, AllowClose, AllowPeerClose,
-          Traced, TraceLeakFix, ReuseLeakFix
+          Traced, TraceLeakFix, ReuseLeakFix, RequeueHandoff
 
 VARIABLES pc, holds, acquired, acqHost, idle, alive, waiters, fut, cres, ready,
           mustCancel, closed, nCancel, nFail, attempts
@@ -159,10 +166,19 @@ Recheck(t, r0) ==
     IF Avail(KeyOf[t]) > 0
     THEN \/ GetIdle(t, [fut EXCEPT ![t] = "none"], r0)
          \/ NoIdle(t) /\ Reserve(t, [fut EXCEPT ![t] = "none"], r0)
-    ELSE \* slot was taken meanwhile: queue again, at the front
-         /\ Enqueue(t, TRUE, r0)
-         /\ attempts' = [attempts EXCEPT ![t] = @ + 1]
-         /\ UNCHANGED idle
+    ELSE \* slot was taken meanwhile: (pass the wake-up on and) queue again, at the front
+         LET k == KeyOf[t]
+             f0 == [fut EXCEPT ![t] = "none"]
+             outs == IF RequeueHandoff /\ ~closed
+                     THEN ReleaseWaiterOutcomes(acquired, acqHost, waiters, f0, r0)
+                     ELSE {[w |-> waiters, f |-> f0, r |-> r0]}
+         IN \E o \in outs :
+              /\ waiters' = [o.w EXCEPT ![k] = <<t>> \o @]
+              /\ fut' = [o.f EXCEPT ![t] = "pending"]
+              /\ pc' = [pc EXCEPT ![t] = IF Tr(t) THEN "qstart" ELSE "waiting"]
+              /\ ready' = IF Tr(t) THEN Append(o.r, t) ELSE o.r
+              /\ attempts' = [attempts EXCEPT ![t] = @ + 1]
+              /\ UNCHANGED <<holds, acquired, acqHost, alive, cres, closed, nCancel, nFail, idle>>
 
 \* an exception (CancelledError) leaves _wait_for_available_connection(): finally pops the
 \* caller's future; the repaired code passes a wake-up it had already received on
